@@ -51,7 +51,12 @@ def run(tier, PROP):
     cfg = CFG[PROP]
     chk = vlib.Check(PROP, tier)
     chk.coverage["trusted_base"] = list(vlib.GLOBAL_TRUSTED) + cfg["trusted"]
-    pr = prove(chk, cfg["modules"], GENS)
+    modules, gens = list(cfg["modules"]), list(GENS)
+    if PROP == "C05":
+        import c18
+        modules += c18.GROW_CONTENT_MODULES                      # memory.grow: contents of the new pages (Props/C05Grow)
+        gens += [("MemFuncs", "gen_memfuncs"), ("EmitTable", "gen_emit"), ("Literals", "gen_literals")]
+    pr = prove(chk, modules, gens)
     broken = [e for e in pr["errors"]] if not pr["build_ok"] else []
     sig = mo.signatures()
     n_random = 150 if tier == "quick" else 3000
@@ -95,6 +100,19 @@ def run(tier, PROP):
                     chk.violation(f"{c[0]}-be-swap-width", f"forced big-endian {c[0]}: `{real[i]}`, a single byte reversal of the access width requires `{exp}`",
                                   {"line": lines[i], "real": real[i], "expected": exp, "build": "-DWASM_ENDIAN=WASM_BIG_ENDIAN"}, True)
         chk.coverage["op_histogram"] = hist
+        if PROP == "C05":
+            # memory.grow and the CONTENTS of the new pages (real wasmMemoryGrow with a dirty realloc vs Model.GrowContent)
+            ok, out = vlib.lake_build(["concdriver"])
+            if not ok:
+                broken.append({"kind": "driver-build", "msg": out[-1500:]})
+            else:
+                c18.run_grow_content(chk, repo, d, tier, broken)
+            # the emitted memory instructions: real w2c2 vs Model.Emit (tokens) and real output vs V8 (profile `memory`, plus the
+            # directed corpus: memarg offsets at every LEB128 length boundary)
+            import e2e_extra
+            n_tok, n_e2e = (300, 60) if tier == "quick" else (4000, 600)
+            os.makedirs(os.path.join(d, "e2e"), exist_ok=True)
+            e2e_extra.run(chk, PROP, [("memory", 1.0)], n_tok, n_e2e, 3, pr["driver_ok"], broken, os.path.join(d, "e2e"))
         chk.coverage["rule"] = ("for every accessor function: random/boundary memory images × addresses (all alignments for plain, natural for atomic; first, last, middle) × boundary/random operands; "
                                 "case = (function, memory image, address, operands); compared: real header function / regenerated Lean body / specification computed independently in Python")
     if tier == "thorough" and pr["build_ok"]:
@@ -135,6 +153,12 @@ def mo_run(exe, lines):
 def replay(path, PROP):
     import json
     r = json.load(open(path))
+    if "spec" in r:                       # an e2e violation of an emitted memory instruction
+        import c03
+        return c03.replay(path, PROP="C03")
+    if str(r.get("args", r.get("line", ""))).startswith("content") or r.get("kind") == "grow-content":
+        import c18
+        return c18.replay(path)
     with vlib.scratch("memr-") as d:
         repo = vlib.copy_repo(os.path.join(d, "repo"))
         exe = mo.build(repo, d, big_endian=("build" in r))
